@@ -597,7 +597,7 @@ type ContractSet struct {
 
 var clauseKeywords = map[string]bool{
 	"func": true, "requires": true, "ensures": true, "preserves": true, "modifies": true, "loop": true,
-	"stable": true, "invariant": true, "iterates": true, "decreases": true, "onrecv": true, "assert": true, "nopanic": true, "safe": true, "nooverflow": true, "pure": true,
+	"stable": true, "invariant": true, "iterates": true, "decreases": true, "onrecv": true, "assert": true, "nopanic": true, "safe": true, "nooverflow": true, "locksafe": true, "pure": true,
 	"inline": true, "trusted": true, "models": true, "spec": true, "lemma": true, "ghost": true, "external": true,
 	"guarded": true, "atomic": true, "immutable": true, "confined": true, "purefunc": true, "bounded": true,
 }
@@ -932,7 +932,7 @@ func (cs *ContractSet) ParseFile(path, pkgdir string) error {
 				return fmt.Errorf("%s:%d: %v", path, it.line, err)
 			}
 			cur.RecvFacts = append(cur.RecvFacts, &RecvFact{Chan: ch, Var: strings.TrimSpace(rest[i+4 : j]), Expr: ex, Src: rest})
-		case "nopanic", "safe", "pure", "inline", "trusted", "nooverflow":
+		case "nopanic", "safe", "pure", "inline", "trusted", "nooverflow", "locksafe":
 			if cur == nil {
 				return fmt.Errorf("%s:%d: flag outside func", path, it.line)
 			}
